@@ -484,33 +484,6 @@ func convProtoDiff(a, b proto.Message) string {
 	return "unknown-fields-or-equal"
 }
 
-// convFeatureEnums: enums of p whose own options carry a feature set (recogniser of FK1).
-func convFeatureEnums(p *descriptorpb.FileDescriptorProto) map[string]bool {
-	out := map[string]bool{}
-	enum := func(scope string, e *descriptorpb.EnumDescriptorProto) {
-		if fs := e.GetOptions().GetFeatures(); fs != nil && proto.Size(fs) > 0 {
-			out[convJoin(scope, e.GetName())] = true
-		}
-	}
-	var msg func(scope string, m *descriptorpb.DescriptorProto)
-	msg = func(scope string, m *descriptorpb.DescriptorProto) {
-		full := convJoin(scope, m.GetName())
-		for _, e := range m.EnumType {
-			enum(full, e)
-		}
-		for _, n := range m.NestedType {
-			msg(full, n)
-		}
-	}
-	for _, e := range p.EnumType {
-		enum(p.GetPackage(), e)
-	}
-	for _, m := range p.MessageType {
-		msg(p.GetPackage(), m)
-	}
-	return out
-}
-
 // convPackedBoth: fields/extensions of p whose options carry both an explicit packed and a
 // features.repeated_field_encoding (recogniser of FK3; protoc refuses packed under editions).
 func convPackedBoth(p *descriptorpb.FileDescriptorProto) map[string]bool {
@@ -555,10 +528,8 @@ func convCompare(c *Ctx, prop, what, in string, a, b protoreflect.FileDescriptor
 		desc string
 		set  func(o *convSnapOpts)
 	}
-	fe := convFeatureEnums(p)
 	pb := convPackedBoth(p)
 	masks := []mask{
-		{"FK1", "filedesc ignores enum-level features (EnumOptions.features): IsClosed/resolved features differ from protodesc", func(o *convSnapOpts) { o.maskEnums = fe }},
 		{"FK2", "protodesc does not copy FieldOptions.lazy to extensions: Extension.IsLazy differs from filedesc", func(o *convSnapOpts) { o.maskExtLazy = true }},
 		{"FK3", "explicit packed together with features.repeated_field_encoding: protodesc lets packed win, filedesc applies them in wire order", func(o *convSnapOpts) { o.maskPacked = pb }},
 	}
@@ -570,7 +541,7 @@ func convCompare(c *Ctx, prop, what, in string, a, b protoreflect.FileDescriptor
 				m.set(&mo)
 			}
 		}
-		if ((bits&1 != 0) && len(fe) == 0) || ((bits&4 != 0) && len(pb) == 0) {
+		if (bits&2 != 0) && len(pb) == 0 {
 			continue
 		}
 		if convDiff(convSnap(a, mo), convSnap(b, mo)) == "" {
